@@ -280,3 +280,7 @@ def run(F, rep, tier):
         if o.rule == "C08-R6":
             o.rule = "C20-R4"
             o.key = o.key.replace("C08-R6|", "C20-R4|", 1)
+    # script-driven reconfiguration of components (modifycvcs, cvcflags) must leave the same derived state as the
+    # configuration-file path
+    from . import rules_c07
+    rules_c07.norm_cache(F, rep, "C20-R5")
